@@ -29,6 +29,11 @@ RULE = ("One evaluation = one seeded execution: each side with or without a "
         "runs.")
 RULE += (' Relay topologies: none, one shared, sender-only, dead, or one relay per side (two hints of equal priority).')
 RULE += (" In a third of the runs one party's application cancels connect() while the race is open; sockets readable in the same reactor iteration are then still read once after loseConnection().")
+RULE += (" Strangers include a host named in a relay hint that answers the "
+         "relay request with 'ok' and, in the same write, bytes that are not "
+         "the peer's handshake, and a key holder that speaks as a Sender "
+         "which has decided against the connection (handshake and "
+         "'nevermind' in one write).")
 LEVEL_TEXT = ("Seeded exploration. Ground truth is which simulated link is "
               "which: the sender's winner must be a link whose far end is the "
               "keyed receiver and on which the full receiver handshake had "
@@ -50,7 +55,12 @@ COMPONENTS = {"real": ["wormhole.transit", "wormhole._hints",
               "stub": ["kernel TCP", "strangers are scripted protocols"]}
 
 STRANGER_KINDS = ("silent", "http", "echo", "random", "prefix", "slowloris",
-                  "wrongkey", "close")
+                  "wrongkey", "close", "fake_relay", "nevermind")
+# fake_relay: a host named in a relay hint that answers the relay request with
+#   "ok\n" and, in the same write, something that is not the peer's handshake
+#   (the bytes sit in the victim's buffer behind the completed "ok")
+# nevermind: knows the transit key and speaks as a Sender that has decided
+#   against this connection: handshake and "nevermind\n" in one write
 
 
 class Stranger(protocol.Protocol):
@@ -81,6 +91,9 @@ class Stranger(protocol.Protocol):
             self._drip()
         elif k == "close":
             self.transport.loseConnection()
+        elif k == "nevermind":
+            self.transport.write(transit.build_sender_handshake(self.w.key) +
+                                 b"nevermind\n")
 
     def _drip(self):
         if not self.data or not self.transport.connected:
@@ -92,6 +105,26 @@ class Stranger(protocol.Protocol):
     def dataReceived(self, data):
         if self.kind == "echo":
             self.transport.write(data)
+        if self.kind == "fake_relay" and self.buf is not None:
+            self.buf += data
+            if b"\n" in self.buf:
+                self.buf = None
+                t = self.tape
+                n = 89 if self.vs else 87      # length of the handshake
+                how = t.choose(4, "fr_how")
+                if how == 0:
+                    body = t.blob(n, 12)
+                elif how == 1:
+                    other = t.blob(32, 13)
+                    body = (transit.build_receiver_handshake(other) if self.vs
+                            else transit.build_sender_handshake(other))
+                elif how == 2:
+                    body = b"x" * n
+                else:
+                    body = t.blob(t.choose(2 * n, "fr_n"), 14)
+                tail = b"" if self.vs else t.pick((b"go\n", b"", b"go\n" +
+                                                   b"\x00" * 30), "fr_tail")
+                self.transport.write(b"ok\n" + body + tail)
 
 
 class StrangerFactory(protocol.ClientFactory):
@@ -169,6 +202,10 @@ def run_one(seed, tape, opts):
         kind = tape.pick(STRANGER_KINDS, "skind")
         dial_in = tape.choose(2, "sdir") == 0
         victim_is_sender = tape.choose(2, "svict") == 0
+        if kind == "nevermind":
+            victim_is_sender = False
+        if kind == "fake_relay":
+            dial_in = False
         strangers.append((kind, dial_in, victim_is_sender))
     # listed strangers: listeners that the victim will dial via a bogus hint
     for kind, dial_in, vs in strangers:
@@ -190,6 +227,8 @@ def run_one(seed, tape, opts):
             port = sim.reactor.listenTCP(0, f)
             hint = {"type": "direct-tcp-v1", "priority": 0.5,
                     "hostname": "10.1.0.1", "port": port.port}
+            if kind == "fake_relay":
+                hint = {"type": "relay-v1", "hints": [hint]}
         if vs:
             hr = hr + [hint]     # hints given TO the sender come from "R"
         else:
